@@ -281,6 +281,31 @@ def tableRaw (grps : List (Grp F)) (nDs : Nat) (evs : Nat → Nat → List (Ev F
   (grps.zipIdx.flatMap fun gk => (List.range nDs).map (fun j => (gk, j))).foldl
     (tableStep (fun gj => groupCands gj.1.2 gj.2 gj.1.1 (evs gj.1.2 gj.2) (lt gj.2) fac)) (some [])
 
+/-! ### the same table as coded: sources processed in batches of `src_batch_size` -/
+
+/-- `for bi in range(n_batches): src_slice = slice(bi*bs, min((bi+1)*bs, n))`, source index `bi*bs + k`
+(`n_batches = ceil(n / bs)`; `none` = ZeroDivisionError for a batch size 0) -/
+def batchedIdx {α : Type} (bs : Nat) (l : List α) : Option (List (α × Nat)) :=
+  if bs = 0 then none
+  else some ((List.range ((l.length + bs - 1) / bs)).flatMap
+    fun bi => ((l.drop (bi * bs)).take bs).zipIdx (bi * bs))
+
+/-- `calc_source_signal_mc_event_flux` with its batch loop -/
+def groupCandsB (bs g j : Nat) (G : Grp F) (evs : List (Ev F)) (lt fac : F) : Option (List (Cand × F)) :=
+  match minMax (evs.map (·.s)), batchedIdx bs G.srcs with
+  | some (L, U), some srcIdx =>
+    some (srcIdx.flatMap fun sk =>
+      let b := band sk.1.1 G.hbw L U
+      (evs.zipIdx.filter (fun ei => inBand b ei.1.s && inE G.er ei.1.e)).map
+        (fun ei => (⟨j, ei.2, g, sk.2⟩, candWeight ei.1.mcw ei.1.f G.unit (omega b) sk.1.2 lt fac)))
+  | _, _ => none
+
+/-- the table with the batch size `bss g` of group `g` -/
+def tableRawB (bss : Nat → Nat) (grps : List (Grp F)) (nDs : Nat) (evs : Nat → Nat → List (Ev F)) (lt : Nat → F)
+    (fac : F) : Option (List (Cand × F)) :=
+  (grps.zipIdx.flatMap fun gk => (List.range nDs).map (fun j => (gk, j))).foldl
+    (tableStep (fun gj => groupCandsB (bss gj.1.2) gj.1.2 gj.2 gj.1.1 (evs gj.1.2 gj.2) (lt gj.2) fac)) (some [])
+
 /-- `weight /= sum(weight)` -/
 def normalise (ws : List F) : F × List F :=
   let s := sumSeq ws
@@ -297,15 +322,6 @@ variable {F : Type} [LT F] [DecidableLT F]
 /-- `mask |= (v < lo) | (v > hi)` over the configured fields of one event; entries are (value, lo, hi) -/
 def invalidMask (rs : List (F × F × F)) : Bool :=
   rs.any (fun r => decide (r.1 < r.2.1) || decide (r.2.2 < r.1))
-
-/-- validity bit of candidate row `r`: the ranges of the row's dataset, evaluated on the (relocated) field
-values of the row; `vr` holds (dataset, lo, hi, value per row) for every configured (dataset, field) -/
-def validOf (cands : List Cand) (vr : List (Nat × F × F × List F)) (r : Nat) : Bool :=
-  match cands[r]? with
-  | none => false
-  | some c =>
-    !invalidMask ((vr.filter (fun e => e.1 == c.ds)).filterMap
-      (fun e => (e.2.2.2[r]?).map (fun v => (v, e.2.1, e.2.2.1))))
 
 end validity
 
@@ -509,6 +525,100 @@ def cosSep (lon1 lat1 lon2 lat2 : F) : F :=
   sin lat1 * sin lat2 + cos lat1 * cos lat2 * cos (lon2 - lon1)
 
 end relocate
+
+
+/-! ### post-sampling processing and validity on the event data (`signal_event_post_sampling_processing`,
+`_get_invalid_events_mask` evaluated on the relocated event) -/
+
+structure Dir (F : Type) where
+  tRa : F
+  tDec : F
+  rRa : F
+  rDec : F
+
+/-- what the two functions look at -/
+structure EvData (F : Type) where
+  /-- (group, source) ↦ (ra, dec) of the source -/
+  src : Nat → Nat → Option (F × F)
+  /-- (dataset, event) ↦ true and reconstructed direction -/
+  dir : Nat → Nat → Option (Dir F)
+  /-- (dataset, event, field id) ↦ value of a field that relocation does not touch -/
+  oth : Nat → Nat → Nat → Option F
+
+inductive Fld where
+  | ra
+  | dec
+  | sinDec
+  | other (k : Nat)
+
+section events
+variable {F : Type} [Add F] [Sub F] [Mul F] [Div F] [Neg F] [LT F] [DecidableLT F]
+  [OfNat F 1] [OfNat F 2] [OfScientific F] [Transc F] [Atan2 F]
+
+/-- (ra, dec, sin_dec) of a candidate after it has been moved to its source -/
+def postProc (D : EvData F) (c : Cand) : Option (F × F × F) :=
+  match D.src c.shg c.src, D.dir c.ds c.ev with
+  | some s, some d =>
+    let p := relocate s.1 s.2 d.tRa d.tDec d.rRa d.rDec
+    some (p.1, p.2, Transc.sin p.2)
+  | _, _ => none
+
+def fieldVal (D : EvData F) (c : Cand) : Fld → Option F
+  | .ra => (postProc D c).map (·.1)
+  | .dec => (postProc D c).map (·.2.1)
+  | .sinDec => (postProc D c).map (·.2.2)
+  | .other k => D.oth c.ds c.ev k
+
+/-- (value, lo, hi) of every configured range; `none` = a field does not exist (KeyError) -/
+def rangeVals (D : EvData F) (c : Cand) : List (Nat × Fld × F × F) → Option (List (F × F × F))
+  | [] => some []
+  | e :: rest =>
+    match fieldVal D c e.2.1, rangeVals D c rest with
+    | some v, some vs => some ((v, e.2.2.1, e.2.2.2) :: vs)
+    | _, _ => none
+
+/-- validity bit of table row `r`: the ranges `(dataset, field, lo, hi)` of the row's dataset, evaluated on the
+relocated event (a missing row / field counts as invalid here; the theorems assume they exist) -/
+def validRel (D : EvData F) (cands : List Cand) (rs : List (Nat × Fld × F × F)) (r : Nat) : Bool :=
+  match cands[r]? with
+  | none => false
+  | some c =>
+    match rangeVals D c (rs.filter (fun e => e.1 == c.ds)) with
+    | none => false
+    | some vs => !invalidMask vs
+
+def relocRows (D : EvData F) : List (Nat × Cand) → Option (List ((Nat × Cand) × F × F × F))
+  | [] => some []
+  | rc :: rest =>
+    match postProc D rc.2, relocRows D rest with
+    | some p, some ps => some ((rc, p) :: ps)
+    | _, _ => none
+
+def relocDss (D : EvData F) : List (Nat × List (Nat × Cand)) → Option (List (Nat × List ((Nat × Cand) × F × F × F)))
+  | [] => some []
+  | e :: rest =>
+    match relocRows D e.2, relocDss D rest with
+    | some p, some ps => some ((e.1, p) :: ps)
+    | _, _ => none
+
+end events
+
+section eventsGen
+variable {F : Type} [Add F] [Sub F] [Mul F] [Div F] [Neg F] [LE F] [DecidableLE F] [LT F] [DecidableLT F]
+  [OfNat F 0] [OfNat F 1] [OfNat F 2] [OfScientific F] [Transc F] [Atan2 F]
+
+/-- the complete MC generator: draw, redraw on the validity of the *relocated* events, buffers, and the events
+handed out with their relocated coordinates -/
+def generateEv (right : Bool) (cands : List Cand) (cdf : List F) (D : EvData F) (rs : List (Nat × Fld × F × F))
+    (n : Nat) (us : List F) : Option (Nat × List (Nat × List ((Nat × Cand) × F × F × F)) × List F) :=
+  match generateBuf right cands cdf (validRel D cands rs) n us with
+  | none => none
+  | some (k, out, rest) =>
+    match relocDss D out with
+    | none => none
+    | some o => some (k, o, rest)
+
+end eventsGen
 
 /-! ## §6  mean number of signal events → flux -/
 
